@@ -1,5 +1,6 @@
 CONSTANTS
   SheetIdx = {0}
+  Thin = FALSE
   NSeed = 0
   ScanMod = 1
 INIT Init
